@@ -201,6 +201,24 @@ def main():
         for dl in ((0, 3) if not thorough else (0, 0.5, 3, 20)):
             for mc in (None, 1, 2):
                 run_map_wait(v, dl, mc)
+    # the machine's TimeoutSeconds counts from the START of the execution, also for a Wait that is entered later: Wait a -> Wait b under TimeoutSeconds x
+    late_waits = 0
+    for a, b_, x in ((6, 8, 10), (3, 3, 10), (2, 9, 10), (4, 5, 10), (1, 30, 4)):      # (no ties: at equality the deadline wins, Model/Deadline.v)
+        defn = {"StartAt": "W1", "TimeoutSeconds": x, "States": {"W1": {"Type": "Wait", "Seconds": a, "Next": "W2"}, "W2": {"Type": "Wait", "Seconds": b_, "Next": "N"}, "N": {"Type": "Succeed"}}}
+        w.register(ARN, defn)
+        n0 = len(w.trace)
+        started = w.clock.t
+        w.start_execution(ARN, {})
+        r = w.run(max_steps=200)
+        tr = list(zip(w.trace[n0:], w.trace.times[n0:]))
+        term = [(t[3]["detail"]["status"], t[3]["detail"].get("error"), tm - started) for t, tm in tr if t[0] == "broadcast" and t[3]["detail"]["status"] != "RUNNING"]
+        clean()
+        late_waits += 1
+        want = ("SUCCEEDED", None, float(a + b_)) if a + b_ <= x else ("FAILED", "States.Timeout", float(x))
+        d = {"form": "Wait %d then Wait %d under TimeoutSeconds %d" % (a, b_, x), "ended": term, "expected": want, "run": r}
+        if r != "quiescent" or len(term) != 1 or (term[0][0], term[0][1]) != want[:2] or abs(term[0][2] - want[2]) > 0.02:
+            ck.violation("the execution deadline was not counted from the start of the execution for a Wait entered later: %r" % (d,), {"group": "wait", "case": d})
+    ck.add_group("wait_under_execution_deadline", late_waits, late_waits, [])
     # a cancelled timer never fires: a Wait, or a Task sitting out its Retry interval, in a branch whose sibling fails first
     cancelled_runs = 0
     for kind in ("wait", "retry_delay"):
